@@ -20,6 +20,15 @@ CHECKS["C04"] = dict(cat="exploration", engine="txn",
    text="Reference-rich generated schemas (root/non-root, strong/weak, scalar/optional/set/map-key/map-value, self references, cycles, chains) and long histories on one database object; after every commit the stored rows are re-read and checked from scratch (no dangling strong/weak reference, no unreferenced non-root row, no weak column below minimum), accept/reject and post-state are compared with the literal rules, every 5th transaction is also answered by a fresh twin holding the same rows, and GetReferences is compared with referrers recomputed from the rows (mismatches confirmed by probe transactions on a twin). Held = no violation on the histories generated.",
    note="Garbage collection by the literal rule (any existing strong referrer keeps a row, including itself); strong references are checked before garbage collection like ovsdb-server; rejections stricter than the rules are counted, not judged; a transaction not returning within 30 s on <= 20 rows is reported as non-terminating.", ref="4/C04")
 
+CHECKS["C02"] = dict(cat="exploration", engine="txn",
+   technique="fault-injected transactions (poisoned operation at a chosen index) + before/after snapshot of rows and reference index + twin database that never saw the failed transactions + reply-shape monitor",
+   text="Failing transactions are manufactured: a valid generated transaction receives a poisoned operation (17 causes: unknown table/column/op, ill-typed value or condition, immutable column, dangling strong reference, deletion of a referenced row, emptied min-1 weak set, duplicate index value, re-used row uuid, duplicate uuid-name, failing wait, division/modulo by zero) at a PRNG-chosen position after successful operations. After every reply carrying an error the rows of every table and GetReferences of every row must be unchanged, the reply must have the RFC shape, and a twin database receiving only the successful transactions must answer every later transaction identically and hold the same rows. Held = on the transactions generated.",
+   note="In-process engine (the server's Transact path: JSON round-tripped operations, Transact, Commit iff no error). 'No monitor is notified' is observed on the wire by the C07 engine's raw peers.", ref="4/C02")
+CHECKS["C06"] = dict(cat="exploration", engine="txn",
+   technique="invariant monitor (scan for duplicate index tuples after every commit) + reference-model accept/reject on final state + directed hand-over workloads",
+   text="Schemas with one or two single-/multi-column indexes per table, histories concentrated on 3-4 index values with swaps, rotations, hand-overs, delete+insert and 'everybody to one value then away' patterns; after every commit the stored rows are scanned for duplicate index tuples, a transaction whose final state (after GC and weak pruning) has a duplicate must be rejected, one whose final state is duplicate-free must not be rejected with an index violation. Held = on the transactions generated; one known finding (transient sharing of an index value inside a transaction) is reported as KNOWN-FINDING.",
+   note="Schema indexes range over scalar columns. Final-state duplicates are decided by the reference model.", ref="4/C06")
+
 NOT_YET = "check not built yet (work in progress in this round); no claim is made"
 
 def main():
